@@ -8,7 +8,8 @@ start + i*step.  LogQLPlan.tla (PlanMetric) transcribes the SQL planners in the
 order of getFunctionOrder, the metrics_15s shortcut, StepFixPlanner and the Go post-processors ZeroEater and
 FixPeriodPlanner as functions on rows.  TLC enumerates the fragments of MC_LogQLMetric.tla (R range x step x alignment x
 unit, U unwrap, A vector aggregations / comparisons / topk, H the 15 s shortcut at second resolution, T comparisons after
-topk / bottomk in both directions on every planning path) plus a seeded sample of the product (S), reports every case where mechanism and definition differ and exports cases; cmd/c07 runs them
+topk / bottomk in both directions on every planning path, B results longer than one slice of the ClickHouse getter
+(LogQLPlan!GetterBatch rows: the post-processors work slice by slice in goroutines of their own)) plus a seeded sample of the product (S), reports every case where mechanism and definition differ and exports cases; cmd/c07 runs them
 through the REAL /loki/api/v1/query_range with `step` and compares series label sets and (timestamp, value) pairs."""
 import os
 import shutil
@@ -27,15 +28,16 @@ CONSTANTS
   MaxEntries = %(maxentries)d
   ExportSeed = %(seed)d
   SCases <- DataSCases
-INVARIANTS DefinitionWellFormed MechanismWellFormed OnlyWidenedWindowContributes ComparisonAfterSelection Export
+INVARIANTS DefinitionWellFormed MechanismWellFormed OnlyWidenedWindowContributes ComparisonAfterSelection MultiSlice Export
 CHECK_DEADLOCK FALSE
 '''
 
 TIERS = {
-    'quick': {'R': (8, 8, 3), 'U': (8, 8, 3), 'A': (5, 5, 3), 'H': (4, 4), 'T': (3, 3, 2), 'S': (1, 1), 'maxentries': 2, 'nS': 400},
-    'thorough': {'R': (10, 10, 2), 'U': (12, 12, 3), 'A': (1, 1), 'H': (1, 1), 'T': (1, 1), 'S': (1, 1), 'maxentries': 3, 'nS': 5000},
+    'quick': {'R': (8, 8, 3), 'U': (8, 8, 3), 'A': (5, 5, 3), 'H': (4, 4), 'T': (3, 3, 2), 'B': (1, 1, 3), 'S': (1, 1), 'maxentries': 2, 'nS': 400},
+    'thorough': {'R': (10, 10, 2), 'U': (12, 12, 3), 'A': (1, 1), 'H': (1, 1), 'T': (1, 1), 'B': (1, 1, 1), 'S': (1, 1), 'maxentries': 3, 'nS': 5000},
 }
 
+FRAGS = ['R', 'U', 'A', 'H', 'T', 'B', 'S']
 UNWRAP_FNS = ['sum_over_time', 'avg_over_time', 'min_over_time', 'max_over_time', 'first_over_time', 'last_over_time', 'rate_unwrap']
 LRA_FNS = ['rate', 'count_over_time', 'bytes_rate', 'bytes_over_time']
 
@@ -109,7 +111,7 @@ def run(tier):
     binp = vlib.go_build('cmd/c07', 'c07')
     sd = vlib.scratch('c08')
     try:
-        frs, tl = base.tlc_run(tier, sd, vlib.seed(), frags=['R', 'U', 'A', 'H', 'T', 'S'], mc_module='MC_LogQLMetric',
+        frs, tl = base.tlc_run(tier, sd, vlib.seed(), frags=FRAGS, mc_module='MC_LogQLMetric',
                                gen=rand_metric_case, cfg_tpl=CFG, tiers=TIERS)
         cases = []
         for fr in frs:
@@ -127,6 +129,8 @@ def run(tier):
                 + ['topcmp:%s:%s' % (tf, o) for tf in ('topk', 'bottomk') for o in ('>', '>=', '<', '<=', '==', '!=')]
                 + ['topcmp-order-observable:%s:%s' % (tf, pth) for tf in ('topk', 'bottomk')
                    for pth in ('short-range', 'shortcut15s', 'long-range-sql')])
+        # results that reach the Go post-processors in more than one slice of the getter, on every planning path
+        need += ['getter-slices>1'] + ['getter-slices>1:' + pth for pth in ('short-range', 'shortcut15s', 'long-range-sql')]
         missing = [n for n in need if not pu.get(n)]
         if not any(k.startswith('comparison:') for k in pu):
             missing.append('comparison')
